@@ -114,7 +114,7 @@ func hasBareBreakOrContinue(body *ast.BlockStmt) bool {
 func transformFile(fset *token.FileSet, path string, src []byte, kind string, info *types.Info, origFile *ast.File) ([]byte, int) {
 	n := 0
 	var f *ast.File
-	if kind != "rename" {
+	if kind != "rename" && kind != "swap-add" {
 		var err error
 		f, err = parser.ParseFile(fset, path, src, parser.ParseComments)
 		if err != nil {
@@ -172,6 +172,206 @@ func transformFile(fset *token.FileSet, path string, src []byte, kind string, in
 			n++
 			return true
 		})
+	case "switch-to-if":
+		// tagless or tagged switch (pure tag, single-expression-list cases allowed) without
+		// fallthrough and without an unlabeled break in a case body -> if / else-if chain
+		var rewrite func(list []ast.Stmt)
+		rewrite = func(list []ast.Stmt) {
+			for i, st := range list {
+				sw, ok := st.(*ast.SwitchStmt)
+				if !ok || sw.Init != nil || (sw.Tag != nil && !pureOperand(sw.Tag)) {
+					continue
+				}
+				okAll := len(sw.Body.List) > 0
+				var def *ast.CaseClause
+				var clauses []*ast.CaseClause
+				for _, cs := range sw.Body.List {
+					cc := cs.(*ast.CaseClause)
+					if cc.List == nil {
+						def = cc
+					} else {
+						clauses = append(clauses, cc)
+					}
+					for _, b := range cc.Body {
+						ast.Inspect(b, func(n ast.Node) bool {
+							switch x := n.(type) {
+							case *ast.BranchStmt:
+								if x.Tok == token.FALLTHROUGH || (x.Tok == token.BREAK && x.Label == nil) {
+									okAll = false
+								}
+							case *ast.ForStmt, *ast.RangeStmt, *ast.SwitchStmt, *ast.TypeSwitchStmt, *ast.SelectStmt, *ast.FuncLit:
+								return false // a break inside binds to the inner statement; conservative: we also skip nested ones
+							}
+							return true
+						})
+					}
+					for _, e := range cc.List {
+						if !pureOperand(e) {
+							okAll = false
+						}
+						// `switch cond { case true: ... case false: ... }` would become a chain that tests the
+						// condition twice - legal, but nobody writes it; left alone
+						if id, ok := e.(*ast.Ident); ok && (id.Name == "true" || id.Name == "false") {
+							okAll = false
+						}
+					}
+				}
+				// the default clause must be last in source order for a straight chain (Go allows any order)
+				if def != nil && sw.Body.List[len(sw.Body.List)-1] != ast.Stmt(def) {
+					okAll = false
+				}
+				if !okAll || len(clauses) == 0 {
+					continue
+				}
+				condOf := func(cc *ast.CaseClause) ast.Expr {
+					var cond ast.Expr
+					for _, e := range cc.List {
+						var one ast.Expr = e
+						if sw.Tag != nil {
+							one = &ast.BinaryExpr{X: sw.Tag, Op: token.EQL, Y: e}
+						}
+						if cond == nil {
+							cond = one
+						} else {
+							cond = &ast.BinaryExpr{X: cond, Op: token.LOR, Y: one}
+						}
+					}
+					return cond
+				}
+				var head, cur *ast.IfStmt
+				for _, cc := range clauses {
+					is := &ast.IfStmt{Cond: condOf(cc), Body: &ast.BlockStmt{List: cc.Body}}
+					if head == nil {
+						head, cur = is, is
+					} else {
+						cur.Else = is
+						cur = is
+					}
+				}
+				if def != nil {
+					cur.Else = &ast.BlockStmt{List: def.Body}
+				}
+				list[i] = head
+				n++
+			}
+		}
+		ast.Inspect(f, func(nd ast.Node) bool {
+			switch x := nd.(type) {
+			case *ast.BlockStmt:
+				rewrite(x.List)
+			case *ast.CaseClause:
+				rewrite(x.Body)
+			case *ast.CommClause:
+				rewrite(x.Body)
+			}
+			return true
+		})
+	case "if-to-switch":
+		// if c {A} else {B}  ->  switch { case c: A; default: B }   (no unlabeled break in A/B)
+		var rewrite func(list []ast.Stmt)
+		hasBreak := func(b *ast.BlockStmt) bool {
+			found := false
+			ast.Inspect(b, func(n ast.Node) bool {
+				switch x := n.(type) {
+				case *ast.BranchStmt:
+					if x.Tok == token.BREAK && x.Label == nil {
+						found = true
+					}
+				case *ast.ForStmt, *ast.RangeStmt, *ast.SwitchStmt, *ast.TypeSwitchStmt, *ast.SelectStmt, *ast.FuncLit:
+					return false
+				}
+				return true
+			})
+			return found
+		}
+		rewrite = func(list []ast.Stmt) {
+			for i, st := range list {
+				is, ok := st.(*ast.IfStmt)
+				if !ok || is.Init != nil || is.Else == nil {
+					continue
+				}
+				eb, ok := is.Else.(*ast.BlockStmt)
+				if !ok || hasBreak(is.Body) || hasBreak(eb) {
+					continue
+				}
+				list[i] = &ast.SwitchStmt{Body: &ast.BlockStmt{List: []ast.Stmt{
+					&ast.CaseClause{List: []ast.Expr{is.Cond}, Body: is.Body.List},
+					&ast.CaseClause{Body: eb.List},
+				}}}
+				n++
+			}
+		}
+		ast.Inspect(f, func(nd ast.Node) bool {
+			switch x := nd.(type) {
+			case *ast.BlockStmt:
+				rewrite(x.List)
+			case *ast.CaseClause:
+				rewrite(x.Body)
+			case *ast.CommClause:
+				rewrite(x.Body)
+			}
+			return true
+		})
+	case "demorgan":
+		// if a || b  ->  if !(!(a) && !(b));   if a && b -> if !(!(a) || !(b))   (if conditions only)
+		ast.Inspect(f, func(nd ast.Node) bool {
+			is, ok := nd.(*ast.IfStmt)
+			if !ok {
+				return true
+			}
+			be, ok := is.Cond.(*ast.BinaryExpr)
+			if !ok || (be.Op != token.LOR && be.Op != token.LAND) {
+				return true
+			}
+			op := token.LAND
+			if be.Op == token.LAND {
+				op = token.LOR
+			}
+			not := func(e ast.Expr) ast.Expr { return &ast.UnaryExpr{Op: token.NOT, X: &ast.ParenExpr{X: e}} }
+			is.Cond = not(&ast.BinaryExpr{X: not(be.X), Op: op, Y: not(be.Y)})
+			n++
+			return true
+		})
+	case "swap-add":
+		// x + y -> y + x and x * y -> y * x for integer operands without calls (text edit by position)
+		if info == nil || origFile == nil {
+			return nil, 0
+		}
+		tf := fset.File(origFile.Pos())
+		type span struct{ xs, xe, ys, ye int }
+		var spans []span
+		var visit func(nd ast.Node) bool
+		visit = func(nd ast.Node) bool {
+			be, ok := nd.(*ast.BinaryExpr)
+			if !ok || (be.Op != token.ADD && be.Op != token.MUL) {
+				return true
+			}
+			t := info.TypeOf(be)
+			b, isB := t.Underlying().(*types.Basic)
+			if t == nil || !isB || b.Info()&types.IsInteger == 0 || !pureOperand(be.X) || !pureOperand(be.Y) {
+				return true
+			}
+			if tv, ok := info.Types[be]; ok && tv.Value != nil {
+				return false // constant expression: leave alone
+			}
+			spans = append(spans, span{tf.Offset(be.X.Pos()), tf.Offset(be.X.End()), tf.Offset(be.Y.Pos()), tf.Offset(be.Y.End())})
+			return false // do not descend: nested swaps would overlap
+		}
+		ast.Inspect(origFile, visit)
+		sort.Slice(spans, func(i, j int) bool { return spans[i].xs > spans[j].xs })
+		out := append([]byte{}, src...)
+		for _, sp := range spans {
+			x := string(out[sp.xs:sp.xe])
+			y := string(out[sp.ys:sp.ye])
+			mid := string(out[sp.xe:sp.ys])
+			repl := "(" + y + ")" + mid + "(" + x + ")"
+			out = append(out[:sp.xs], append([]byte(repl), out[sp.ye:]...)...)
+			n++
+		}
+		if n == 0 {
+			return nil, 0
+		}
+		return out, n
 	case "noop":
 		ast.Inspect(f, func(nd ast.Node) bool {
 			var body *ast.BlockStmt
@@ -285,7 +485,7 @@ func runBenignFuzz(repo, verif string, only string) int {
 			}
 		}
 	}
-	kinds := []string{"swap-eq", "flip-rel", "negate-if", "for-cond", "noop", "rename"}
+	kinds := []string{"swap-eq", "flip-rel", "negate-if", "for-cond", "noop", "rename", "switch-to-if", "if-to-switch", "demorgan", "swap-add"}
 	var variants []benignVariant
 	tmp, err := os.MkdirTemp("", "benignfuzz")
 	if err != nil {
@@ -310,7 +510,7 @@ func runBenignFuzz(repo, verif string, only string) int {
 			}
 			for _, k := range kinds {
 				fs := token.NewFileSet()
-				if k == "rename" {
+				if k == "rename" || k == "swap-add" {
 					fs = w.Fset // positions of the type-checked file
 				}
 				out, n := transformFile(fs, path, src, k, p.TypesInfo, f)
